@@ -25,6 +25,8 @@ type Case struct {
 	Margin    int    `json:"margin"` // -1: no hint
 	ForceSet  string `json:"force_code_set,omitempty"`
 	Multi     string `json:"multi,omitempty"` // "", "hinted", "unhinted": also read through the multi-format UPC/EAN reader
+	// NoHintAPI: written through Writer.EncodeWithoutHint and read through Reader.DecodeWithoutHints
+	NoHintAPI bool `json:"without_hint_api,omitempty"`
 }
 
 func encode(c Case) (*gozxing.BitMatrix, error) {
@@ -38,6 +40,9 @@ func encode(c Case) (*gozxing.BitMatrix, error) {
 	}
 	if c.ForceSet != "" {
 		hints[gozxing.EncodeHintType_FORCE_CODE_SET] = c.ForceSet
+	}
+	if c.NoHintAPI && len(hints) == 0 {
+		return s.Writer().EncodeWithoutHint(c.Content, s.Format, c.ReqW, c.ReqH)
 	}
 	return s.Writer().Encode(c.Content, s.Format, c.ReqW, c.ReqH, hints)
 }
@@ -60,7 +65,12 @@ func check(raw json.RawMessage) error {
 	if err != nil {
 		return fmt.Errorf("hx: bitmap: %v", err)
 	}
-	res, err := s.Reader().Decode(bmp, nil)
+	var res *gozxing.Result
+	if c.NoHintAPI {
+		res, err = s.Reader().DecodeWithoutHints(bmp)
+	} else {
+		res, err = s.Reader().Decode(bmp, nil)
+	}
 	if err != nil {
 		return fmt.Errorf("matching reader failed on the %dx%d image: %v [%s]", bm.GetWidth(), bm.GetHeight(), err, desc)
 	}
@@ -351,6 +361,10 @@ func TestCheck(t *testing.T) {
 				content, canon, cl := onedx.Content(s.Name, rng)
 				cs := Case{Sym: s.Name, Content: content, Canonical: canon, Margin: -1}
 				cl += ";" + geometry(t, &cs, s)
+				if cs.Margin < 0 && rapid.IntRange(0, 3).Draw(t, "nohintapi") == 0 {
+					cs.NoHintAPI = true
+					cl += ";without_hint_api"
+				}
 				if upceTrailingQuiet(cs) && rapid.IntRange(0, 19).Draw(t, "keep_known") != 0 {
 					// steer around the known finding (counted), keep 1 in 20
 					c.Exclude("upce-trailing-quiet-zone: margin raised to 13")
